@@ -52,6 +52,12 @@ pub fn device_authentication(
                     "device key jwk is missing coordinates".to_string(),
                 ));
             };
+            // `GenericArray::from_slice` panics unless the coordinates are exactly 32 bytes.
+            if x.0.len() != 32 || y.0.len() != 32 {
+                return Err(Error::MdocAuth(
+                    "device key coordinates are not P-256 coordinates".to_string(),
+                ));
+            }
             let encoded_point = p256::EncodedPoint::from_affine_coordinates(
                 GenericArray::from_slice(x.0.as_slice()),
                 GenericArray::from_slice(y.0.as_slice()),
